@@ -209,3 +209,87 @@ func init() {
 	vHarnesses["H_C03_rowset"] = H_C03_rowset
 	vHarnesses["H_C03_sample"] = H_C03_sample
 }
+
+// H_C03_merge: the range-normalisation kernel on up to 3 ranges + 1 key: for an arbitrary probe
+// key, membership in the requested union equals membership in exactly one normalised range, and
+// the normalised ranges are sorted and pairwise disjoint (so no row is visited twice).
+func H_C03_merge() {
+	maxLen := vBound("merge-keylen", 1, 2)
+	nr := vChoice("nranges", 0, 3)
+	nk := vChoice("nkeys", 0, 1)
+	if nr+nk == 0 {
+		return
+	}
+	var ranges []c03Range
+	var rrs []*btpb.RowRange
+	for i := 0; i < nr; i++ {
+		var r c03Range
+		if vBound("merge-all-bound-kinds", 0, 1) == 1 {
+			r = c03Range{lo: c03Bound("range.start", maxLen), hi: c03Bound("range.end", maxLen)}
+		} else {
+			// quick: start closed or unset, end open or unset (the kinds the normaliser maps without appending 0)
+			if vChoice("range.start.set", 0, 1) == 1 {
+				r.lo = c05Bound{kind: 2, b: vNondetBytes("range.start", 1)}
+			}
+			if vChoice("range.end.set", 0, 1) == 1 {
+				r.hi = c05Bound{kind: 1, b: vNondetBytes("range.end", 1)}
+			}
+		}
+		rr := &btpb.RowRange{}
+		switch r.lo.kind {
+		case 1:
+			rr.StartKey = &btpb.RowRange_StartKeyOpen{StartKeyOpen: r.lo.b}
+		case 2:
+			rr.StartKey = &btpb.RowRange_StartKeyClosed{StartKeyClosed: r.lo.b}
+		}
+		switch r.hi.kind {
+		case 1:
+			rr.EndKey = &btpb.RowRange_EndKeyOpen{EndKeyOpen: r.hi.b}
+		case 2:
+			rr.EndKey = &btpb.RowRange_EndKeyClosed{EndKeyClosed: r.hi.b}
+		}
+		// validateRowRanges has already rejected start > end
+		if r.lo.kind != 0 && r.hi.kind != 0 {
+			vAssume(vBytesCmp(r.lo.b, r.hi.b) <= 0)
+		}
+		ranges = append(ranges, r)
+		rrs = append(rrs, rr)
+	}
+	var explicit [][]byte
+	for i := 0; i < nk; i++ {
+		explicit = append(explicit, vNondetBytes("rowkey", vChoice("rowkey.len", 1, maxLen)))
+	}
+	merged := mergeRowRanges(explicit, rrs)
+	probe := vNondetBytes("probe", vChoice("probe.len", 1, maxLen+1))
+	want := false
+	for _, r := range ranges {
+		want = vOr(want, c05InRange(probe, r.lo, r.hi))
+	}
+	for _, k := range explicit {
+		want = vOr(want, vBytesEq(probe, k))
+	}
+	var hits int64
+	for i, sr := range merged {
+		in := true
+		if len(sr.start) > 0 {
+			in = vAnd(in, vBytesCmp(probe, sr.start) >= 0)
+		}
+		if len(sr.end) > 0 {
+			in = vAnd(in, vBytesCmp(probe, sr.end) < 0)
+		}
+		hits += vIteInt64(in, 1, 0)
+		if i > 0 {
+			prev := merged[i-1]
+			vAssert(len(prev.end) > 0, "normalised: only the last range may be unbounded")
+			if len(prev.end) > 0 {
+				vAssert(vBytesCmp(prev.end, sr.start) < 0, "normalised-ranges-sorted-and-disjoint")
+			}
+		}
+	}
+	vAssert(vIteInt64(want, 1, 0) == hits, "probe-key-in-requested-union-iff-in-exactly-one-normalised-range")
+	vReach("c03-merge")
+}
+
+func init() {
+	vHarnesses["H_C03_merge"] = H_C03_merge
+}
